@@ -87,15 +87,16 @@ func newChunkExporter(exporter Exporter, size int) Exporter {
 	return &chunkExporter{Exporter: exporter, size: size}
 }
 
-// Export exports records in chunks no larger than c.size.
+// Export exports records in chunks no larger than c.size. Every chunk is
+// passed to the wrapped Exporter even if the export of an earlier chunk failed;
+// the errors of all failed chunks are returned joined.
 func (c chunkExporter) Export(ctx context.Context, records []Record) error {
+	var err error
 	n := len(records)
 	for i, j := 0, min(c.size, n); i < n; i, j = i+c.size, min(j+c.size, n) {
-		if err := c.Exporter.Export(ctx, records[i:j]); err != nil {
-			return err
-		}
+		err = errors.Join(err, c.Exporter.Export(ctx, records[i:j]))
 	}
-	return nil
+	return err
 }
 
 // timeoutExporter wraps an Exporter and ensures any call to Export will have a
